@@ -24,7 +24,7 @@ func init() {
 			if tier == "thorough" {
 				return 40000
 			}
-			return 900
+			return 2500
 		},
 		Run:      runC10,
 		Required: []string{"faults_injected", "later_calls_checked", "invalid_requests_checked", "deadline_pairs_checked"},
@@ -84,6 +84,8 @@ func runC10(ctx *core.Ctx, out *core.Out) {
 	}
 	if cfg.WB < 64 {
 		max = 600
+	} else if max > 40*cfg.WB {
+		max = 40 * cfg.WB // keeps the number of transport operations (and so of fault points) affordable
 	}
 	prog := genProgram(r, cfg, ProgOpts{MaxMsgs: 4, MaxSize: max, Invalid: true, Deadlines: true})
 	desc := rtCase{Cfg: cfg, Prog: progDesc(prog)}
